@@ -102,6 +102,22 @@ def opsExtra : Handler := fun st toks =>
   | "tfrom_iter_ref" :: d :: vs => do
     let i ← parseTSlot 't' d; let vs ← parseNatsMax 18446744073709551615 vs
     pure (st.setT i ⟨Treemap.fromIter vs, Spec.extend [] vs⟩, "ok")
+  | "tfrom_arr" :: d :: vs => do
+    -- iter.rs:439 `From<[u64; N]>` = `RoaringTreemap::from_iter(arr)`
+    let i ← parseTSlot 't' d; let vs ← parseNatsMax 18446744073709551615 vs
+    if vs.length > 4 then none else
+    pure (st.setT i ⟨Treemap.fromIter vs, Spec.extend [] vs⟩, "ok")
+  | "tcollect_bitmaps" :: d :: items => do
+    -- iter.rs:611 `FromIterator<(u32, RoaringBitmap)>` = `Self::from_bitmaps(iterator)`
+    let i ← parseTSlot 't' d; let items ← parseKeyed st items
+    let m := Treemap.fromBitmaps (items.map fun p => (p.1, p.2.m))
+    let s := Spec.fromBitmaps (items.map fun p => (p.1, p.2.s))
+    pure (st.setT i ⟨m, s⟩, "ok")
+  | ["tfor_ref", d] => do
+    -- iter.rs:421 `IntoIterator for &RoaringTreemap` = `self.iter()`, consumed by a `for` loop (`next()` until `None`)
+    let (_, sl) ← t? d
+    let r := jDrain false (sl.s.length + 1000) (.borrowed (TIter.Iter.new sl.m)) 0 fnvBasis
+    pure (st, specMark s!"n={r.2.1} h={hex64 r.2.2.toNat}" s!"n={sl.s.length} h={hex64 (sl.s.foldl fnvStep fnvBasis).toNat}")
   | ["jfold", k] => do
     -- `Iterator::fold` consumes the iterator (the slot is emptied, as in the harness).  `treemap::Iter` does not
     -- override it: core's default `while let Some(x) = self.next()` (`jDrain`).  `treemap::IntoIter::fold`
